@@ -103,7 +103,7 @@ def run(cx):
             aw = await_target(c)
             if aw is not None:
                 return "await(yield_now)" if aw.endswith("yield_now") else "await(" + aw.split("::")[-1] + ")"
-            for nm, sym in ((f"{MGR}::handle_connectivity_check", "check"), (f"{MGR}::handle_connect_request", "connect_request"), (f"{MGR}::handle_incoming", "incoming"),
+            for nm, sym in ((f"{MGR}::handle_connectivity_check", "check"), (f"{MGR}::dial_peer", "connect_request"), (f"{MGR}::handle_incoming", "incoming"),
                             (f"{MGR}::handle_connecting_result", "connecting_result"), (f"{MGR}::shutdown", "shutdown"), ("panic::resume_unwind", "reraise"),
                             ("result::Result::unwrap", "unwrap!"), ("result::Result::expect", "expect!")):
                 if name_matches(c.fn, nm):
@@ -329,7 +329,7 @@ def run(cx):
         lb = loop_body(cx)
         sh = cx.coroutine(f"{MGR}::shutdown")
         ents = [f"{MGR}::start", f"{MGR}::shutdown", cx.impl_method(MGR, "Drop", "drop").path, f"{MGR}::handle_connectivity_check", f"{MGR}::handle_connecting_result",
-                f"{MGR}::handle_incoming", f"{MGR}::handle_connect_request", f"{MGR}::dial_peer", f"{MGR}::dial_peer_task", f"{MGR}::add_peer",
+                f"{MGR}::handle_incoming", f"{MGR}::dial_peer", f"{MGR}::dial_peer_task", f"{MGR}::add_peer",
                 "anemo::types::address::Address::resolve", f"{EP}::close", f"{EP}::wait_idle", f"{EP}::rebind", f"{EP}::local_addr",
                 f"{NI}::connect", f"{NI}::shutdown", f"{NI}::disconnect", f"{NI}::peer", f"{NI}::peers", f"{NI}::rpc", f"{NI}::is_closed", "anemo::network::NetworkRef::upgrade",
                 "anemo::network::Network::subscribe"]
@@ -352,8 +352,16 @@ def run(cx):
         def dial_bug_discharged(site, b):
             # every ConnectingOutput with maybe_oneshot: Some reaches oneshot.send in handle_connecting_result on both arms
             h = prog.body(f"{MGR}::handle_connecting_result")
-            sends = h.calls_to("tokio::sync::oneshot::Sender::send")
-            return len(sends) == 2
+            sends = [c for c in h.calls_to("tokio::sync::oneshot::Sender::send") if not h.is_cleanup(c.bb)]
+            if not sends:
+                return False
+            ho_ = Origins(h)
+            none_tgts = []
+            for sw, subj, labels in find_switch_on(h, lambda s_: s_[0] == "discr" and mentions_field(s_[1], "maybe_oneshot"), ho_):
+                none_tgts += [t_ for t_, ls in labels.items() if ls == {"None"}]
+            through = {c.bb for c in sends} | set(none_tgts)
+            # every way out either answered the oneshot or had none to answer (one send per arm, or one hoisted send)
+            return all(h.all_paths_pass(0, [r], through) for r in h.return_blocks())
 
         from .c06 import const_index_ok, bounds_assert_ok, copy_len_ok
         W = "anemo::network::wire"
